@@ -244,6 +244,8 @@ pub struct Repair<N: Network> {
     blockstore: SharedBlockstore,
     pool: SharedPool,
     slice_roots: BTreeMap<(BlockId, SliceIndex), SliceRoot>,
+    /// Index of the last slice of each block under repair, as proven by a `LastSliceRoot` response.
+    last_slices: BTreeMap<BlockId, SliceIndex>,
     outstanding_requests: BTreeMap<Hash, RepairRequestType>,
     /// Expiry times of outstanding requests, earliest first (min-heap via [`Reverse`]).
     request_timeouts: BinaryHeap<Reverse<(Instant, Hash)>>,
@@ -272,6 +274,7 @@ where
             blockstore,
             pool,
             slice_roots: BTreeMap::new(),
+            last_slices: BTreeMap::new(),
             outstanding_requests: BTreeMap::new(),
             request_timeouts: BinaryHeap::new(),
             network,
@@ -384,6 +387,7 @@ where
                 // store slice Merkle root
                 self.slice_roots
                     .insert((block_id.clone(), last_slice), root);
+                self.last_slices.insert(block_id.clone(), last_slice);
 
                 // issue next requests
                 // TODO: do not request last slice root again
@@ -432,6 +436,15 @@ where
                     || shred.payload().shred_index != index
                 {
                     warn!("repair response (Shred) for mismatching shred index");
+                    return;
+                }
+                // NOTE: The last-slice flag is signed by the leader but not covered by the block
+                // hash. A Byzantine leader can sign the same slice content with both flags,
+                // so the flag has to agree with the slice count proven for the requested block.
+                if let Some(last_slice) = self.last_slices.get(block_id)
+                    && shred.payload().header.is_last != (slice == *last_slice)
+                {
+                    warn!("repair response (Shred) with last-slice flag not matching the block");
                     return;
                 }
                 let Some(root) = self.slice_roots.get(&(block_id.clone(), slice)) else {
